@@ -15,6 +15,8 @@
 import PandoraModel.Properties.C10
 import PandoraModel.Generated.KernelsFilter
 
+set_option linter.unusedSimpArgs false
+
 namespace Pandora.C10Kernels
 open Pandora Pandora.PyArr Pandora.Filter
 
@@ -155,8 +157,8 @@ theorem filterDisparityMedian_generated (fs ny nx : Nat) (flags : Nat â†’ Nat â†
     rw [h4 dm (by omega), hold dm hne]
     unfold Filter.medianFilterDisparity
     funext r c
-    simp only [maskOf, isfinite]
-    rfl
+    -- `np.isfinite(x)`, `~np.isnan(x)`, `np.isnan(x) == False` are the same mask of a map without infinities
+    simp [maskOf, maskNot, isfinite, Val.isNum]
   Â· intro k hk hkd
     simp only [Store.maskCopy, set_arr_ne _ hkd]
     rw [h4 k (by omega), hold k (by omega)]
